@@ -332,6 +332,13 @@ def ctxpool_stage(zx, sc, tier, seed, known):
         raise Inconclusive("CtxPool model emitted no schedules")
     total = len(seen)
     n = sample_lines(sc.path("cpwalks.ndjson"), 10 ** 9 if q else 400000, seed)
+    st3 = None
+    if not q:
+        # three concurrent visitors, model only (no emission): Exclusive over every interleaving
+        o3, st3 = tlc(sc, "CtxPool", cfg="CtxPool3.cfg", workers=16, timeout=1800, outname="cp3.out")
+        if tlc_errors(o3):
+            raise Inconclusive("CtxPool model (three visitors): " + "; ".join(tlc_errors(o3)[:3]))
+        os.remove(o3)
     o2, st2 = tlc(sc, "CtxPool", cfg="CtxPoolOrig.cfg", workers=4, timeout=600, outname="cp2.out")
     if not any("Exclusive is violated" in e for e in tlc_errors(o2)):
         raise Inconclusive("CtxPool model does not distinguish the original (double Put) from the repaired design")
@@ -356,7 +363,8 @@ def ctxpool_stage(zx, sc, tier, seed, known):
         lines = fh.readlines()
     cov = {"family": "ctxpool", "states": st["distinct_states"] + st2["distinct_states"], "transitions": st["states_generated"] + st2["states_generated"],
            "traces_validated_against_impl": n, "samples": [json.loads(lines[len(lines) // 2])],
-           "model": {"module": "CtxPool.tla", "cfg": cfg, "invariants": ["Exclusive"], "refuted_variant": "CtxPoolOrig.cfg (Repaired = FALSE)", "wall_s": st["wall_s"]},
+           "model": {"module": "CtxPool.tla", "cfg": cfg, "invariants": ["Exclusive"], "refuted_variant": "CtxPoolOrig.cfg (Repaired = FALSE)", "wall_s": st["wall_s"],
+                     "three_visitors": None if st3 is None else {"cfg": "CtxPool3.cfg", "distinct_states": st3["distinct_states"], "wall_s": st3["wall_s"]}},
            "schedules": total, "schedules_replayed": n, "steps_with_pool_snapshot": rs["steps"], "max_pool_size_seen": rs["maxpool"],
            "configurations": "every schedule alternately on the in-memory and the mmap-opened segment; GOMAXPROCS(1), collector parked, pool snapshot after every step"}
     return {"cov": cov, "paths": paths}
@@ -521,14 +529,21 @@ def run_out(pid, tier, seed, replay=None):
             log("NOTE: mismatch attributed to %s, not to this check: %s" % (out_prop(it), trunc(it, 200)))
         paths = []
         if mine:
-            # reproduce once more from the same seed before reporting
-            tp2, rs2, mism2, _ = out_run(zx, sc, seed, q, "b")
-            again = {(m["prov"], json.dumps(it)) for m in mism2 for it in m["bad"]}
+            # reproduce from the same seed before reporting; the order in which the merger writes its sections varies from
+            # run to run (map iteration), so a plan may meet the defect in one run and not in the next: up to four re-runs,
+            # a candidate counts when the same kind of mismatch on the same kind of operation shows again
+            again = set()
+            want = {(m["prov"], it[0]) for m, it in mine}
+            for tag in "bcde":
+                tp2, rs2, mism2, _ = out_run(zx, sc, seed, q, tag)
+                again |= {(m["prov"], it[0]) for m in mism2 for it in m["bad"]}
+                if want <= again:
+                    break
             lines = open(tp).read().splitlines()
             seen = set()
             for m, it in mine:
                 key = "%s/%s" % (m["prov"], it[0])
-                if (m["prov"], json.dumps(it)) not in again and it[0] not in ("async-result", "incomplete-async"):
+                if (m["prov"], it[0]) not in again and it[0] not in ("async-result", "incomplete-async"):
                     log("UNREPRODUCED: %s" % trunc(it, 200))
                     continue
                 if key in seen or len(paths) >= 3:
